@@ -35,6 +35,8 @@ def setup():
 
 
 def main():
+    import logging
+    logging.disable(logging.CRITICAL)      # the library's own log lines are not part of a verdict
     ap = argparse.ArgumentParser()
     ap.add_argument("prop", nargs="?")
     ap.add_argument("--setup", action="store_true")
